@@ -143,8 +143,49 @@ func checkCase(c Case, r *vf.R) error {
 		if r.Excluded("F02a", deg) {
 			return nil
 		}
+		// F02c of C02: Settle(Positive/Negative) panics when a vertex lies within the snap distance of an edge
+		near := false
+		for _, d := range c.Draws {
+			if d.Rule >= 2 && d.Stroke == 0 && nearTouch(d.Path) {
+				near = true
+			}
+		}
+		if r.Excluded("F02c", near) {
+			return nil
+		}
 	}
 	return err
+}
+
+// nearTouch: a vertex of the path within 3e-8 (relative to the path's own coordinates; the views of this property
+// scale by 0.5 to 2) of an edge it is not part of, without lying exactly on it (class of finding F02c).
+func nearTouch(ps gen.PathSpec) bool {
+	segs, err := oracle.Decode(ps.Build().Data())
+	if err != nil {
+		return false
+	}
+	var vs []oracle.Pt
+	for _, s := range segs {
+		vs = append(vs, s.End())
+	}
+	for _, pl := range oracle.Sample(segs, 24) {
+		n := len(pl.P)
+		for i := 0; i < n; i++ {
+			a, b := pl.P[i], pl.P[(i+1)%n]
+			if a == b {
+				continue
+			}
+			for _, v := range vs {
+				if v == a || v == b {
+					continue
+				}
+				if d := oracle.DistSeg(v, a, b); d > 0 && d < 3e-8 {
+					return true
+				}
+			}
+		}
+	}
+	return false
 }
 
 func checkCase1(c Case, r *vf.R) error {
